@@ -24,8 +24,12 @@
 // starting at its own seeded offset inside the block, so that the same library function runs concurrently on
 // DIFFERENT argument values.  staggered: no barrier, goroutine g starts at its own block, so that different
 // operations overlap.  alternate: even rounds aligned, odd rounds staggered.  Seeded runtime.Gosched() yields
-// between cases.  Nothing in the harness is shared and written after the goroutines start, except the barrier.
-// With 1 goroutine this is a plain sequential run (used to confirm a mismatch against the sequential behaviour).
+// between cases.  Nothing in the harness is shared and written after the goroutines start, except the barrier words
+// and each worker's own heartbeat (read by the monitor: a case that does not return for 30 s ends the process with
+// exit code 4 and <outprefix>.hang).  The harness also avoids everything that would ORDER the goroutines between two
+// library calls in the eyes of the race detector: no mutex / condition barrier, no helper goroutine per call, no
+// encoding/json or fmt (sync.Pool) while the goroutines work - events are kept as values and marshalled at the end -
+// and the library's logger is set below its lowest level (package nopool explains).
 //
 // The driver only calls the library and writes what it saw; every verdict about a value is TLC's.
 package main
@@ -38,6 +42,7 @@ import (
 	"os"
 	"runtime"
 	"sync"
+	"sync/atomic"
 	"time"
 
 	"verifharness/cmd/conc/f12"
@@ -48,6 +53,9 @@ import (
 	"verifharness/cmd/conc/f18"
 	"verifharness/cmd/conc/fsec"
 	"verifharness/internal/ev"
+
+	"github.com/free5gc/nas/logger"
+	"github.com/sirupsen/logrus"
 )
 
 type famSpec struct {
@@ -60,21 +68,34 @@ type manifest struct {
 	Families []famSpec `json:"families"`
 }
 
-// sink: the event buffer of one (goroutine, family)
+// sink: the events of one (goroutine, family), kept as values while the goroutines work and marshalled afterwards
+// (encoding/json and fmt keep scratch state in sync.Pools, which would order the goroutines, see package nopool)
 type sink struct {
-	buf bytes.Buffer
-	n   int
-	idx bytes.Buffer
+	evs []interface{}
+	idx []int // case index, events written meanwhile (pairs)
 }
 
-func (s *sink) Emit(v interface{}) {
-	b, err := json.Marshal(v)
-	if err != nil {
-		ev.Fatal("marshal: %v", err)
+func (s *sink) Emit(v interface{}) { s.evs = append(s.evs, v) }
+
+func (s *sink) ndjson() []byte {
+	var buf bytes.Buffer
+	for _, v := range s.evs {
+		b, err := json.Marshal(v)
+		if err != nil {
+			ev.Fatal("marshal: %v", err)
+		}
+		buf.Write(b)
+		buf.WriteByte('\n')
 	}
-	s.buf.Write(b)
-	s.buf.WriteByte('\n')
-	s.n++
+	return buf.Bytes()
+}
+
+func (s *sink) index() []byte {
+	var buf bytes.Buffer
+	for i := 0; i+1 < len(s.idx); i += 2 {
+		fmt.Fprintf(&buf, "%d %d\n", s.idx[i], s.idx[i+1])
+	}
+	return buf.Bytes()
 }
 
 // family: loaded cases (read-only once the goroutines run) and a constructor of per-goroutine runners
@@ -144,34 +165,55 @@ func load(spec famSpec) *family {
 
 type block struct{ fam, lo, hi int }
 
+// barrier k is passed once all n goroutines have arrived at it.  It is built from atomics on words that belong to
+// barrier k alone: a mutex/condition barrier would hand a fast goroutine's LATER work (it has meanwhile finished the block
+// and touched the same mutex again at the next barrier) to a goroutine that is still waking up, i.e. order the two blocks
+// by happens-before and hide an unsynchronised access from the race detector.  Here a waiter only acquires what the last
+// arrival released at barrier k, which is work done before the block.
 type barrier struct {
-	mu    sync.Mutex
-	c     *sync.Cond
-	n     int
-	count int
-	gen   int
+	n     int32
+	count []int32
+	open  []int32
 }
 
-func newBarrier(n int) *barrier {
-	b := &barrier{n: n}
-	b.c = sync.NewCond(&b.mu)
-	return b
+func newBarrier(n, uses int) *barrier {
+	return &barrier{n: int32(n), count: make([]int32, uses), open: make([]int32, uses)}
 }
 
-func (b *barrier) wait() {
-	b.mu.Lock()
-	gen := b.gen
-	b.count++
-	if b.count == b.n {
-		b.gen++
-		b.count = 0
-		b.c.Broadcast()
-	} else {
-		for gen == b.gen {
-			b.c.Wait()
+func (b *barrier) wait(k int) {
+	if atomic.AddInt32(&b.count[k], 1) == b.n {
+		atomic.StoreInt32(&b.open[k], 1)
+		return
+	}
+	for atomic.LoadInt32(&b.open[k]) == 0 {
+		runtime.Gosched()
+	}
+}
+
+// beat: what a worker is doing, for the monitor (one cache line per worker; the monitor only reads)
+type beat struct {
+	since int64 // unix nanoseconds at which the current case was started, 0: not inside a case
+	fam   int32
+	cas   int32
+	_     [48]byte
+}
+
+// monitor ends the process with exit code 4 and <prefix>.hang when a case has not returned for `limit`
+// (the family drivers' per-call watchdog goroutines are not used here, see guarded in f15 / f16 / f18)
+func monitor(beats []beat, fams []*family, prefix string, limit time.Duration) {
+	for {
+		time.Sleep(500 * time.Millisecond)
+		now := time.Now().UnixNano()
+		for g := range beats {
+			t := atomic.LoadInt64(&beats[g].since)
+			if t != 0 && now-t > int64(limit) {
+				fi, ci := atomic.LoadInt32(&beats[g].fam), atomic.LoadInt32(&beats[g].cas)
+				msg := fmt.Sprintf("{\"goroutine\":%d,\"family\":%q,\"case\":%d,\"seconds\":%d}\n", g, fams[fi].name, ci, int(limit/time.Second))
+				os.WriteFile(prefix+".hang", []byte(msg), 0o644)
+				os.Exit(4)
+			}
 		}
 	}
-	b.mu.Unlock()
 }
 
 func runPar(m manifest, prefix string, n, rounds int, mode string) {
@@ -197,7 +239,9 @@ func runPar(m manifest, prefix string, n, rounds int, mode string) {
 	for r := range order {
 		order[r] = prng.Perm(len(blocks))
 	}
-	bar := newBarrier(n)
+	bar := newBarrier(n, rounds*len(blocks)+2)
+	beats := make([]beat, n)
+	go monitor(beats, fams, prefix, 30*time.Second)
 	var wg sync.WaitGroup
 	counts := make([]int, n)
 	for g := 0; g < n; g++ {
@@ -211,26 +255,35 @@ func runPar(m manifest, prefix string, n, rounds int, mode string) {
 				sinks[i] = &sink{}
 				run[i] = f.runner(sinks[i])
 			}
+			me := &beats[g]
 			do := func(b block) {
 				size := b.hi - b.lo
 				off := rng.Intn(size)
 				s := sinks[b.fam]
 				for k := 0; k < size; k++ {
 					i := b.lo + (off+k)%size
-					before := s.n
+					before := len(s.evs)
+					atomic.StoreInt32(&me.fam, int32(b.fam))
+					atomic.StoreInt32(&me.cas, int32(i))
+					atomic.StoreInt64(&me.since, time.Now().UnixNano())
 					run[b.fam].run(i)
-					fmt.Fprintf(&s.idx, "%d %d\n", i, s.n-before)
+					atomic.StoreInt64(&me.since, 0)
+					s.idx = append(s.idx, i, len(s.evs)-before)
 					if rng.Intn(8) == 0 {
 						runtime.Gosched()
 					}
 				}
 			}
+			nbar := 0
+			bar.wait(nbar) // all goroutines exist before any of them calls the library
+			nbar++
 			for r := 0; r < rounds; r++ {
 				aligned := mode == "aligned" || (mode == "alternate" && r%2 == 0)
 				ord := order[r]
 				if aligned {
 					for _, bi := range ord {
-						bar.wait()
+						bar.wait(nbar)
+						nbar++
 						do(blocks[bi])
 					}
 				} else {
@@ -240,16 +293,19 @@ func runPar(m manifest, prefix string, n, rounds int, mode string) {
 					}
 				}
 			}
-			for i, f := range fams {
+			for i := range fams {
 				run[i].finish()
+			}
+			bar.wait(rounds*len(blocks) + 1) // every library call has been made: only now the events are marshalled
+			for i, f := range fams {
 				base := fmt.Sprintf("%s.%s.%d", prefix, f.name, g)
-				if err := os.WriteFile(base+".ndjson", sinks[i].buf.Bytes(), 0o644); err != nil {
+				if err := os.WriteFile(base+".ndjson", sinks[i].ndjson(), 0o644); err != nil {
 					ev.Fatal("%v", err)
 				}
-				if err := os.WriteFile(base+".idx", sinks[i].idx.Bytes(), 0o644); err != nil {
+				if err := os.WriteFile(base+".idx", sinks[i].index(), 0o644); err != nil {
 					ev.Fatal("%v", err)
 				}
-				counts[g] += sinks[i].n
+				counts[g] += len(sinks[i].evs)
 			}
 		}(g)
 	}
@@ -281,16 +337,16 @@ func runSeq(name, cases, order, out string) {
 		r.run(i)
 	}
 	r.finish()
-	if err := os.WriteFile(out, s.buf.Bytes(), 0o644); err != nil {
+	if err := os.WriteFile(out, s.ndjson(), 0o644); err != nil {
 		ev.Fatal("%v", err)
 	}
-	fmt.Println("events", s.n)
+	fmt.Println("events", len(s.evs))
 }
 
 func main() {
 	ev.Quiet()
-	// many goroutines share few processors under the race detector: a call only counts as not returning after 20 s
-	f15.Watchdog, f16.Watchdog, f18.Watchdog = 20*time.Second, 20*time.Second, 20*time.Second
+	// the library's log calls take the logger's mutex when the level is enabled: another harness-made ordering of goroutines
+	logger.GetLogger().SetLevel(logrus.PanicLevel)
 	if len(os.Args) == 6 && os.Args[1] == "runseq" {
 		runSeq(os.Args[2], os.Args[3], os.Args[4], os.Args[5])
 		return
